@@ -338,6 +338,7 @@ Proof.
     destruct (expire_colls s x (map fst (s_colls s)) []) as [s' evs]. cbn [fst] in H. cbn [sr_store with_next sn_colls].
     rewrite !snap_colls, H. apply strs_eqb_refl.
   - cbv zeta. cbn [chk_step_C11 os_snap sstep]. destruct (coll_id s coll); cbn [sr_store with_next sn_rows sn_colls]; rewrite rows_eqb_refl, strs_eqb_refl; reflexivity.
+  - cbv zeta. cbn [chk_step_C11 os_snap sstep]. destruct (coll_id s coll); cbn [sr_store with_next sn_rows sn_colls]; rewrite rows_eqb_refl, strs_eqb_refl; reflexivity.
   - cbv zeta. cbn [chk_step_C11 os_snap sstep]. cbn [sr_store with_next sn_rows sn_colls].
     set (s' := mkStore _ _ _ _ _ _ _).
     rewrite (snap_same s' s colls keys xn eq_refl eq_refl), rows_eqb_refl, strs_eqb_refl. reflexivity.
